@@ -46,7 +46,7 @@ def mutate(rng, src):
         return rng.choice([",", ";", ",,", "="])
     k = rng.randrange(len(toks))
     r = rng.random()
-    if r < 0.25 and any("," in t for t in toks):
+    if r < 0.25 and any(t.endswith(",") for t in toks):
         ks = [i for i, t in enumerate(toks) if t.endswith(",")]
         i = rng.choice(ks)
         toks[i] = toks[i][:-1]                      # dropped comma
